@@ -3,7 +3,7 @@ import json
 import os
 
 import common
-from . import gradual, scoregen, decoder, convert, builders, modsrep
+from . import gradual, scoregen, decoder, convert, builders, modsrep, attrs
 
 REGISTRY = {}
 REGISTRY.update(gradual.REGISTRY)
@@ -12,6 +12,7 @@ REGISTRY.update(decoder.REGISTRY)
 REGISTRY.update(convert.REGISTRY)
 REGISTRY.update(builders.REGISTRY)
 REGISTRY.update(modsrep.REGISTRY)
+REGISTRY.update(attrs.REGISTRY)
 
 
 def setup():
@@ -35,7 +36,7 @@ def replay(path):
     obj = json.load(open(path))
     prop = obj["property"]
     kind = obj["replay"].get("kind")
-    for mod in (gradual, scoregen, decoder, convert, builders, modsrep):
+    for mod in (gradual, scoregen, decoder, convert, builders, modsrep, attrs):
         if kind in mod.REPLAY_KINDS:
             return mod.replay(prop, obj)
     common.log("no replay handler for kind %r" % kind)
